@@ -5,7 +5,7 @@
 
 use crate::libglue as glue;
 use crate::refmodel::sm9::{self as rsm9, F12, G1, G2};
-use crate::simrng::{run_lib, run_lib_norng, Class, Outcome, RngLog};
+use crate::simrng::{run_lib, run_lib_norng, Class, Outcome, RngLog, RngScript};
 use crate::world::{fnv, grng, gs, gs_opt, gu, World, R};
 use gm_sm9::key::{Sm9EncKey, Sm9EncMasterKey, Sm9SignKey, Sm9SignMasterKey};
 use num_bigint::BigUint;
@@ -22,6 +22,7 @@ pub fn exec(w: &mut World, name: &str, op: &Value) -> R<Value> {
         "sm9.sign" => sign(w, op),
         "sm9.verify" => verify(w, op),
         "sm9.encrypt" => encrypt(w, op),
+        "sm9.soak" => soak(w, op),
         "sm9.decrypt" => decrypt(w, op),
         "sm9.kex.1a" => kex_1a(w, op),
         "sm9.kex.1b" => kex_1b(w, op),
@@ -787,4 +788,138 @@ fn kex_end(w: &mut World, op: &Value) -> R<Value> {
         w.bump("probe.sm9.kex.aborted");
     }
     Ok(json!({"modified": modified}))
+}
+
+/// A long history in one process and thread: `n` distinct identities under one master key pass
+/// through encryption (kind "encrypt") or through verification (kind "verify"); afterwards the
+/// EARLY identities are used again and judged exactly (ciphertext equals GM/T 0044.4 for the
+/// scripted r; a valid signature is accepted). Whatever table the library keeps per identity has
+/// by then seen more entries than it may be willing to hold. The watchdog is re-armed per call.
+fn soak(w: &mut World, op: &Value) -> R<Value> {
+    let kind = gs(op, "kind")?.to_string();
+    let n = gu(op, "n")? as usize;
+    let seed = gu(op, "seed")?;
+    let mut p = crate::prng::Prng::new(seed);
+    let nn = order();
+    let k = (BigUint::from_bytes_be(&p.bytes32()) % (&nn - 1u32)) + 1u32;
+    let idk = |j: usize| -> Vec<u8> { format!("soak9-{seed:x}-{j}").into_bytes() };
+    let case = fnv(&[b"sm9soak", kind.as_bytes(), &seed.to_le_bytes(), &(n as u64).to_le_bytes()]);
+    let mut bad: Option<String> = None;
+    let mut calls = 0u64;
+    if kind == "encrypt" {
+        let ppube = rsm9::with(|s| s.g1_mul(&k, &s.g1));
+        let ppw = rsm9::with(|s| s.g1_bytes(&ppube));
+        let g = g_enc(&ppw).ok_or("soak: pairing")?;
+        let msg = b"long history".to_vec();
+        let enc = |id: &[u8], script: &RngScript| -> (Class, Option<Vec<u8>>) {
+            let (out, _) = run_lib(script, || {
+                let m = Sm9EncMasterKey { ke: [0, 0, 0, 0], ppube: lib_point(&ppw)? };
+                Some(m.encrypt(id, &msg))
+            });
+            classify(out)
+        };
+        let revisit = |p: &mut crate::prng::Prng, upto: usize, bad: &mut Option<String>, calls: &mut u64| {
+            let picks: Vec<usize> = (0..6usize).chain((0..6).map(|_| p.below(upto.max(1) as u64) as usize).collect::<Vec<_>>()).collect();
+            for j in picks {
+                if j >= upto || bad.is_some() {
+                    continue;
+                }
+                let r = (BigUint::from_bytes_be(&p.bytes32()) % (&nn - 1u32)) + 1u32;
+                let rb = rsm9::be32(&r);
+                let script = RngScript { cands: vec![rb; 4], filler: 1, real: false };
+                crate::runner::touch();
+                let (class, ct) = enc(&idk(j), &script);
+                *calls += 1;
+                let want = rsm9::with(|s| s.encrypt_with_r(&g, &ppube, &idk(j), &msg, &r));
+                if want.is_some() && (class != Class::Ok || ct != want) {
+                    *bad = Some(format!("after {upto} distinct recipients, encrypting again to recipient {j} ({}) ended in {} and does not give the GM/T 0044.4 ciphertext for r={}", String::from_utf8_lossy(&idk(j)), class.as_str(), hex::encode(rb)));
+                }
+            }
+        };
+        for j in 0..n {
+            crate::runner::touch();
+            let script = RngScript { cands: vec![], filler: seed ^ (j as u64).wrapping_mul(0x9E37_79B9_7F4A_7C15), real: false };
+            let (class, _) = enc(&idk(j), &script);
+            calls += 1;
+            if class != Class::Ok {
+                bad = Some(format!("encrypting to the {j}-th distinct recipient ended in {}", class.as_str()));
+                break;
+            }
+            // the early recipients again at a few table sizes on the way (just past 2^k entries)
+            if j >= 255 && (j + 1).is_power_of_two() {
+                revisit(&mut p, j + 1, &mut bad, &mut calls);
+            }
+            if bad.is_some() {
+                break;
+            }
+        }
+        if bad.is_none() {
+            revisit(&mut p, n, &mut bad, &mut calls);
+        }
+        w.bump_by("call.sm9.encrypt", calls);
+        w.bump_by("history.soak-sm9-recipients", n as u64);
+        let key = json!({"entry":"sm9.encrypt","class":"long-history","outcome": if bad.is_some() { "fails" } else { "Ok" }});
+        w.check("C10", "O10.2-exact", bad.is_none(), case, key, || bad.clone().unwrap());
+    } else {
+        let ppubs = rsm9::with(|s| s.g2_mul(&k, &s.g2));
+        let ppw = g2_wire(&ppubs);
+        let g = g_sign(&ppw).ok_or("soak: pairing")?;
+        let msg = b"long history".to_vec();
+        // valid signatures for the first 6 identities
+        let mut sigs: Vec<Vec<u8>> = vec![];
+        for j in 0..6usize {
+            let ds = rsm9::with(|s| s.extract_sign_key(&k, &idk(j))).ok_or("soak: extract")?;
+            let r = (BigUint::from_bytes_be(&p.bytes32()) % (&nn - 1u32)) + 1u32;
+            let (h, sp) = rsm9::with(|s| s.sign_with_r(&g, &ds, &msg, &r)).ok_or("soak: sign")?;
+            let mut sig = rsm9::be32(&h).to_vec();
+            sig.extend_from_slice(&rsm9::with(|s| s.g1_bytes(&sp)));
+            sigs.push(sig);
+        }
+        let ver = |id: &[u8], sig: &[u8]| -> Class {
+            let h_limbs = glue::be_to_limbs(&sig[..32]);
+            let out = run_lib_norng(|| {
+                let m = Sm9SignMasterKey { ks: [0, 0, 0, 0], ppubs: lib_twist(&ppw)? };
+                let s = glue::sm9_point_form(&sig[32..], "affine")?;
+                m.verify_sign(id, &msg, &h_limbs, &s).ok()
+            });
+            classify(out).0
+        };
+        let revisit = |upto: usize, bad: &mut Option<String>, calls: &mut u64| {
+            for j in 0..6usize {
+                if bad.is_some() {
+                    break;
+                }
+                crate::runner::touch();
+                let c = ver(&idk(j), &sigs[j]);
+                *calls += 1;
+                if c != Class::Ok {
+                    *bad = Some(format!("after {upto} distinct identities, a valid signature of identity {j} is answered with {}", c.as_str()));
+                }
+            }
+        };
+        revisit(0, &mut bad, &mut calls);
+        for j in 6..n {
+            if bad.is_some() {
+                break;
+            }
+            crate::runner::touch();
+            // someone else's signature under a new identity: must be refused, never crash
+            let c = ver(&idk(j), &sigs[j % 6]);
+            calls += 1;
+            if c == Class::Ok || c == Class::Panic || c == Class::Hang {
+                bad = Some(format!("verifying identity {j}'s claim with another identity's signature ended in {}", c.as_str()));
+            }
+            if j >= 255 && (j + 1).is_power_of_two() {
+                revisit(j + 1, &mut bad, &mut calls);
+            }
+        }
+        if bad.is_none() {
+            revisit(n, &mut bad, &mut calls);
+        }
+        w.bump_by("call.sm9.verify_sign", calls);
+        w.bump_by("history.soak-sm9-identities", n as u64);
+        let key = json!({"entry":"sm9.verify_sign","class":"long-history","outcome": if bad.is_some() { "fails" } else { "Ok" }});
+        w.check("C09", "O9.4-complete", bad.is_none(), case, key, || bad.clone().unwrap());
+    }
+    Ok(json!({"calls": calls}))
 }
